@@ -373,6 +373,67 @@ def run_src(src):
     return H.run_impl_value(src)[0]
 
 
+# what each pool value is: (kind, python value or None)
+POOL_KINDS = {
+    "NULL": ("null", None), "TRUE": ("boolean", True),
+    "FALSE": ("boolean", False), "0": ("int", 0), "1": ("int", 1),
+    "-1": ("int", -1), "12": ("int", 12), "0.0": ("decimal", 0.0),
+    "1.5": ("decimal", 1.5), "-2.5": ("decimal", -2.5), "''": ("string", ""),
+    "'a'": ("string", "a"), "'12'": ("string", "12"),
+    "'ab1'": ("string", "ab1"), "'20200101'": ("string", "20200101"),
+    "'2020010112'": ("string", "2020010112"), "'1200'": ("string", "1200"),
+    "[]": ("list", []), "[1]": ("list", [1]), "<<>>": ("set", []),
+    "<< 1 >>": ("set", [1]), "<<<>>>": ("map", []),
+    "<<< 1 => 2 >>>": ("map", [1]), "<**>": ("object", None),
+    "<*a = 1*>": ("object", None), "//a//": ("pattern", None),
+    "fn(x) x": ("func", None), "date('20200101')": ("date", None),
+    "parse('1')": ("node", None), "'abc'": ("string", "abc"),
+    "['a', 'b']": ("list", ["a", "b"]), "<< 'a' >>": ("set", ["a"]),
+    "<<< 'a' => 1 >>>": ("map", ["a"]),
+}
+TYPE_PREDS = ("string", "int", "decimal", "boolean", "pattern", "func",
+              "input", "output", "list", "set", "map", "object", "node")
+
+
+def pred_meaning(p, x):
+    """what `x is p` means where the documentation pins it: True / False /
+    'not-true' (FALSE or a runtime error, but never TRUE) / None (open)"""
+    import re
+    if x not in POOL_KINDS:
+        return None
+    k, v = POOL_KINDS[x]
+    num = k in ("int", "decimal")
+    if p in TYPE_PREDS:
+        return k == p
+    if p == "zero":
+        return (v == 0) if num else "not-true"
+    if p == "negative":
+        return (v < 0) if num else "not-true"
+    if p == "empty":
+        if k == "null":
+            return True
+        if num:
+            return False
+        if k in ("string", "list", "set", "map"):
+            return len(v) == 0
+        return None
+    m = re.fullmatch(r"(numerical|alphanumerical)"
+                     r"(?: min_len (\d+))?(?: max_len (\d+))?"
+                     r"(?: exact_len (\d+))?", p)
+    if m:
+        if k != "string":
+            return None      # the operator form applies to string(x)
+        if v == "" and not (m.group(2) or m.group(4)):
+            return None      # the operator form without min_len: open
+        lo = int(m.group(2) or 1)
+        hi = int(m.group(3) or 99999)
+        if m.group(4):
+            lo = hi = int(m.group(4))
+        cls = "[0-9]" if m.group(1) == "numerical" else "[a-zA-Z0-9]"
+        return bool(re.fullmatch(cls + "{%d,%d}" % (lo, hi), v))
+    return None
+
+
 def explore_preds(chunk):
     agg = core.Agg()
     for x in chunk["values"]:
@@ -382,6 +443,18 @@ def explore_preds(chunk):
             agg.count("steps", 2)
             agg.cls(("pred", p, pos[0]))
             check_negation(agg, f"is {p}", x, None, pos, neg)
+            want = pred_meaning(p, x)
+            if want is not None:
+                ok = (pos[0] == "value" and pos[1] is want) \
+                    if want != "not-true" else \
+                    (pos[0] == "rt" or (pos[0] == "value"
+                                        and pos[1] is False))
+                if not ok:
+                    agg.violation(
+                        {"part": "predicate-meaning", "form": f"is {p}"},
+                        {"what": "predmean", "src": f"def v = {x}; v is {p}",
+                         "want": want}, want, list(pos),
+                        size=len(x) + len(p))
         for y in PRED_POOL[::3] + ["'a'", "'1'", "//a.*//", "[1]"]:
             for (w, wn) in WORD_FORMS:
                 pos = run_src(f"def v = {x}; def w = {y}; v {w} w")
@@ -498,6 +571,15 @@ def replay(case, verbose=False):
         if verbose:
             print(case["src"], lit, case["via_variable"], var)
         return not (lit[0] == var[0] and H.same(var[1], lit[1]))
+    if case.get("what") == "predmean":
+        pos = run_src(case["src"])
+        want = case["want"]
+        if verbose:
+            print(case["src"], "->", pos, "meaning:", want)
+        if want == "not-true":
+            return not (pos[0] == "rt" or (pos[0] == "value"
+                                           and pos[1] is False))
+        return not (pos[0] == "value" and pos[1] is want)
     if case.get("what") == "negation":
         a = core.Agg()
         x, y, form = case["x"], case["y"], case["form"]
